@@ -116,12 +116,19 @@ Inductive citem :=
 (* the protocol's bound on a binary payload: lengths from [frame_limit] up are illegal *)
 Definition frame_limit : Z := 500000.
 
-Definition citem_wf (it : citem) : bool :=
+(* bytes followed by a close: a proper prefix of ONE legal frame (binary) / of one line (ASCII) *)
+Definition trunc_wf (binary : bool) (bs : bytes) : bool :=
+  if binary then
+    (zlen bs <? 4) || (let n := le32_val (firstn 4 bs) in (n <? frame_limit) && (zlen bs - 4 <? n))
+  else negb (existsb (Z.eqb 10) bs).
+
+(* the items the property's histories are made of, per protocol mode *)
+Definition citem_wf (binary : bool) (it : citem) : bool :=
   match it with
-  | IFrame p _ => (zlen p <? frame_limit) && bytes_ok p
-  | ILine l _ _ => bytes_ok l && negb (existsb (Z.eqb 10) l)
-  | IOver n => (frame_limit <=? n) && (n <? 4294967296)
-  | ITrunc bs => bytes_ok bs
+  | IFrame p _ => binary && (zlen p <? frame_limit)
+  | ILine l _ _ => negb binary && negb (existsb (Z.eqb 10) l)
+  | IOver n => binary && (frame_limit <=? n) && (n <? 4294967296)
+  | ITrunc bs => trunc_wf binary bs
   | IClose => true
   end.
 
